@@ -376,6 +376,8 @@ class Executor(Engine, ExprMixin, StmtMixin, CallMixin):
         for name, expr in c.ensures.items():
             if 'FOLD(' in expr:
                 continue
+            if any(k in expr for k in ('all_calls(', 'calls_ordered(', 'each_call_preceded(')):
+                continue      # call-discipline clauses speak about the callee's own calls; nothing to assume here
             if mentions_ghost(expr):
                 if not insts:
                     continue      # no instantiation requested: the clause is not used at this call site
